@@ -5,19 +5,22 @@ import json
 import os
 import shutil
 
+import sys
 OUT = os.path.join(os.path.dirname(os.path.dirname(os.path.abspath(__file__))), "seeded")
+BASE = sys.argv[1] if len(sys.argv) > 1 else "/tmp/seed"          # e.g. /tmp/seed2
+LETTERS = dict(zip("ab", sys.argv[2])) if len(sys.argv) > 2 else {"a": "a", "b": "b"}   # e.g. "cd"
 for i in range(1, 21):
     pid = "C%02d" % i
     for v in ("a", "b"):
-        src = "/tmp/seed-%s/_seed/%s" % (pid, v)
-        ev = "/tmp/eval-%s-%s.json" % (pid, v)
+        src = "%s-%s/_seed/%s" % (BASE, pid, v)
+        ev = "/tmp/eval-%s-%s-%s.json" % (os.path.basename(BASE), pid, v)
         if not (os.path.exists(os.path.join(src, "patch.diff")) and os.path.exists(ev)):
             continue
         e = json.load(open(ev))
         if not (e.get("patch_applies") and e.get("suite_passes_with_patch") and e.get("demo_ok")):
             print("SKIP (not confirmed)", pid, v, {k: e.get(k) for k in ("patch_applies", "suite_passes_with_patch", "demo_ok")})
             continue
-        d = os.path.join(OUT, "%s-%s" % (pid, v))
+        d = os.path.join(OUT, "%s-%s" % (pid, LETTERS[v]))
         os.makedirs(d, exist_ok=True)
         for f in ("patch.diff", "demo.py", "notes.md"):
             if os.path.exists(os.path.join(src, f)):
@@ -25,7 +28,8 @@ for i in range(1, 21):
         notes = open(os.path.join(src, "notes.md")).read() if os.path.exists(os.path.join(src, "notes.md")) else ""
         meta = {
             "property": pid,
-            "origin": "fresh sub-agent given only the property text and a scratch worktree of /repo",
+            "origin": "fresh sub-agent given only the property text and a scratch worktree of /repo" + (
+                " (second round: A = two cooperating edits, B = multi-step / interplay trigger)" if BASE.endswith("2") else ""),
             "needs_to_manifest": notes.strip().split("\n\n")[0][:1200],
             "confirmed_by_me": {
                 "how": "tools/eval_seed.py: rsync copies of /repo outside /repo and /verif; patch applied with patch -p1; "
